@@ -191,7 +191,7 @@ def expand_names(fl, d, depth=5):
         if v is None:
             return d
         v = norm(v)
-        if not isinstance(v, tuple) or v[0] not in ("call", "binop", "unop", "index"):
+        if not isinstance(v, tuple) or v[0] not in ("call", "binop", "unop", "index", "closure"):
             # a pattern binding / re-borrow of a place: still "some variable"
             return d
         return expand_names(fl, v, depth - 1)
